@@ -531,16 +531,16 @@ Proof.
       * destruct (path_dec q (rev rp ++ [c])) as [->|Hq'].
         -- right. rewrite Hq, (upd_same _ _ _ _ Hu). splits; auto using is_prefix_refl.
         -- left. rewrite Hq. eapply upd_other; eauto.
-      * right. assert (q <> rev rp ++ [c]).
+      * right. assert (Hqne : q <> rev rp ++ [c]).
         { intros ->. apply is_prefix_spec in C as [t C]. apply (f_equal (@length _)) in C.
           rewrite !app_length in C. cbn in C. lia. }
-        rewrite (upd_other _ _ _ _ _ Hu H0) in A. splits; auto.
+        rewrite (upd_other _ _ _ _ _ Hu Hqne) in A. splits; auto.
         eapply is_prefix_trans; [exact C | apply is_prefix_app].
     + assert (r1 <> PUnsafe).
       { intros ->. destruct Hun as [Hun _]. specialize (Hun eq_refl).
         destruct (path_eqb (rev rp ++ [c]) []) eqn:En; [apply path_eqb_spec in En; congruence|]. discriminate. }
-      assert (r = Done tt w1) by (destruct r1; congruence). subst r. cbn. splits; eauto; rewrite ?Hfs1; auto.
-      intros q. now left.
+      assert (Hr : r = Done tt w1) by (destruct r1; congruence). rewrite Hr. cbn.
+      splits; eauto; rewrite ?Hfs1; auto. intros q. now left.
 Qed.
 
 (** ** One diff entry *)
@@ -647,8 +647,7 @@ Proof.
     - subst r1. cbn. splits; auto. }
   destruct H1 as [Hg1 [Hne1 Hpost1]].
   destruct r1 as [deleted w1|er w1].
-  2:{ subst r. cbn in *. splits; rewrite ?Hpost1; auto using stepok_refl.
-      destruct er; auto. }
+  2:{ subst r. cbn in *. splits; rewrite ?Hpost1; auto using stepok_refl; try (destruct er; auto). }
   cbn [res_world] in Hg1.
   (* the state after the first stage *)
   assert (Hstep1 : stepok p (tracked e) (removal e) f (w_fs w1)).
@@ -666,7 +665,7 @@ Proof.
     erewrite upd_parent_dirs; eauto. }
   assert (Hprev1 : all_dirs (w_fs w1) (s_prev s) = true).
   { destruct deleted; [|now rewrite Hpost1]. destruct Hpost1 as [A [B [C D]]].
-    eapply upd_keeps_dirs; eauto. intros E. unfold f in A. rewrite E in A. discriminate. }
+    apply (upd_keeps_dirs f (w_fs w1) p None); auto. intros E. rewrite E in A. discriminate. }
   assert (Hanc1 : anchor (w_fs w1)).
   { destruct Hanc as [x [Hx1 Hx2]]. exists x. split; auto. rewrite Hres1; auto.
     unfold WcC.has_reserved. cbn. now rewrite Hx1. }
@@ -689,7 +688,7 @@ Proof.
   assert (Hres2 : forall q, has_reserved q = true -> lookup (w_fs (res_world r2)) q = lookup f q).
   { intros q Hq. rewrite Hsame2. auto. }
   destruct r2 as [[|] w2|er w2]; cbn [res_world] in *.
-  3:{ subst r. cbn. splits; auto. destruct er; auto. }
+  3:{ subst r. cbn. splits; auto; try (destruct er; auto). }
   2:{ (* skipped *)
       subst r. cbn. splits; auto.
       - rewrite <- Hprev1. apply all_dirs_ext. auto. }
@@ -717,13 +716,13 @@ Proof.
     + destruct Hpost3 as [_ Hu]. destruct (Hfin _ _ Hu) as [A [B C]].
       subst r. cbn. unfold removal in A. rewrite Ea in A. splits; auto.
     + destruct Hpost3 as [Hfs3 _]. subst r. cbn. unfold removal in Hstep2. rewrite Ea in Hstep2.
-      splits; rewrite ?Hfs3; auto. destruct er; auto.
+      splits; rewrite ?Hfs3; auto; try (destruct er; auto).
   - destruct (write_symlink w2 p t) as [u w3|er w3] eqn:E3;
       apply write_symlink_spec in E3; auto; destruct E3 as [Hg3 [Hne3 Hpost3]].
     + destruct Hpost3 as [_ Hu]. destruct (Hfin _ _ Hu) as [A [B C]].
       subst r. cbn. unfold removal in A. rewrite Ea in A. splits; auto.
     + destruct Hpost3 as [Hfs3 _]. subst r. cbn. unfold removal in Hstep2. rewrite Ea in Hstep2.
-      splits; rewrite ?Hfs3; auto. destruct er; auto.
+      splits; rewrite ?Hfs3; auto; try (destruct er; auto).
   - (* removal: prune the parents *)
     assert (Hanc2 : exists x, lookup (w_fs w2) [x] <> None /\ is_prefix [x] (rev (rev (parent p))) = false).
     { destruct Hanc1 as [x [Hx1 Hx2]]. exists x. rewrite rev_involutive. split.
@@ -738,6 +737,160 @@ Proof.
       now apply parent_is_strict_prefix.
     + intros q Hq. destruct (Hpr q) as [Hq'|[A [B [C D]]]]; [rewrite Hq'; auto|].
       exfalso. assert (has_reserved (parent p) = true) by (eapply has_reserved_prefix; eauto). congruence.
+Qed.
+
+Lemma common_prefix_spec : forall p q c adj,
+  common_prefix p q = (c, adj) -> p = c ++ adj /\ is_prefix c q = true.
+Proof.
+  induction p as [|x p IH]; intros q c adj H.
+  - cbn in H. inversion H; subst. split; reflexivity.
+  - destruct q as [|y q]; cbn in H; [inversion H; subst; split; reflexivity|].
+    destruct (String.eqb x y) eqn:E.
+    + destruct (common_prefix p q) as [c' r'] eqn:E'. inversion H; subst.
+      destruct (IH _ _ _ E') as [-> A]. split; [reflexivity|]. cbn. rewrite E. exact A.
+    + inversion H; subst. split; reflexivity.
+Qed.
+
+Lemma has_reserved_prefix_false : forall p q,
+  is_prefix p q = true -> has_reserved q = false -> has_reserved p = false.
+Proof.
+  intros p q H Hq. destruct (has_reserved p) eqn:E; [|reflexivity].
+  rewrite (has_reserved_prefix p q H E) in Hq. discriminate.
+Qed.
+
+Lemma made_dirs_keeps_dirs : forall f f' base full d,
+  made_dirs f f' base full -> all_dirs f d = true -> all_dirs f' d = true.
+Proof.
+  intros f f' base full d H Hd. apply all_dirs_spec. intros q Hq.
+  assert (Hq' : is_dir f q = true) by (eapply all_dirs_spec; eauto).
+  destruct q as [|a q]; [reflexivity|]. apply is_dir_lookup in Hq'; [|discriminate].
+  apply is_dir_lookup; [discriminate|].
+  destruct (H (a :: q)) as [E|[A _]]; congruence.
+Qed.
+
+Lemma parent_app : forall (c adj : path), adj <> [] -> parent (c ++ adj) = c ++ removelast adj.
+Proof. intros. unfold parent. now apply removelast_app. Qed.
+
+Definition sinv (s : st) : Prop :=
+  good (s_w s) /\ anchor (w_fs (s_w s)) /\ all_dirs (w_fs (s_w s)) (s_prev s) = true
+  /\ has_reserved (s_prev s) = false.
+
+Lemma anchor_keep : forall f f',
+  (forall q, has_reserved q = true -> lookup f' q = lookup f q) -> anchor f -> anchor f'.
+Proof.
+  intros f f' H [x [A B]]. exists x. split; auto. rewrite H; auto.
+  unfold WcC.has_reserved. cbn. now rewrite A.
+Qed.
+
+Lemma process_entry_spec : forall s e r,
+  process_entry s e = r -> d_path e <> [] -> sinv s ->
+  good (s_w (pr_state r)) /\ pr_not_escape r /\
+  stepok (d_path e) (tracked e) (removal e) (w_fs (s_w s)) (w_fs (s_w (pr_state r))) /\
+  (forall q, has_reserved q = true -> lookup (w_fs (s_w (pr_state r))) q = lookup (w_fs (s_w s)) q) /\
+  match r with PDone s' => sinv s' | PFail _ _ => True end.
+Proof.
+  intros s e r H Hp [Hg [Hanc [Hprev Hprevr]]]. unfold WcC.process_entry in H.
+  cbn [s_prev s_w s_changed s_deleted s_stats] in H.
+  destruct (common_prefix (d_path e) (s_prev s)) as [c adj] eqn:Ec.
+  apply common_prefix_spec in Ec as [Hpath Hc].
+  assert (Hdc : all_dirs (w_fs (s_w s)) c = true) by (eapply all_dirs_prefix; eauto).
+  assert (Hrc : has_reserved c = false) by (eapply has_reserved_prefix_false; eauto).
+  destruct adj as [|a adj'].
+  - (* the path lies on the cached chain of directories *)
+    rewrite app_nil_r in Hpath. subst c.
+    destruct (forallb valid_name (d_path e)).
+    + set (s1 := mkSt (s_w s) (s_prev s) (s_changed s) (s_deleted s) (bump (s_stats s) e)) in *.
+      apply (entry_tail_spec s1 e r) in H; auto.
+      * destruct H as [A [B [C [D E]]]]. splits; auto.
+        destruct r as [s'|]; auto. destruct E as [E1 E2]. unfold sinv. splits; auto.
+        eapply anchor_keep; eauto.
+      * cbn. eapply all_dirs_prefix; eauto. apply is_strict_prefix_prefix. now apply parent_is_strict_prefix.
+      * eapply has_reserved_prefix_false; eauto. apply is_strict_prefix_prefix. now apply parent_is_strict_prefix.
+    + subst r. cbn. splits; auto using stepok_refl.
+  - set (adj := a :: adj') in *. assert (Hadj : adj <> []) by discriminate.
+    destruct (forallb valid_name c); cbn [negb] in H.
+    2:{ subst r. cbn. splits; auto using stepok_refl. }
+    cbn [s_w] in H.
+    destruct (create_parent_dirs (s_w s) c adj) as [[dp|] w1|er w1] eqn:E1;
+      apply create_parent_dirs_spec in E1; auto; destruct E1 as [Hg1 [Hne1 [Hmd [Hrs Hpost]]]];
+      cbn [res_world] in *.
+    + destruct Hpost as [Hdp [Hd1 [Hr1 Hv1]]]. rewrite <- Hpath in Hdp. subst dp.
+      set (s1 := mkSt w1 (parent (d_path e)) (s_changed s) (s_deleted s) (bump (s_stats s) e)) in *.
+      assert (Hpar : parent (d_path e) = c ++ removelast adj) by (rewrite Hpath; now apply parent_app).
+      assert (Hrp : has_reserved (parent (d_path e)) = false).
+      { rewrite Hpar, has_reserved_app, Hrc, Hr1. reflexivity. }
+      apply (entry_tail_spec s1 e r) in H; auto.
+      * destruct H as [A [B [C [D E]]]]. cbn [s1 s_w] in *. splits; auto.
+        -- eapply stepok_trans; [|exact C]. eapply made_dirs_stepok; eauto.
+           rewrite <- Hpar. apply is_strict_prefix_prefix. now apply parent_is_strict_prefix.
+        -- intros q Hq. rewrite D; auto.
+        -- destruct r as [s'|]; auto. destruct E as [E1 E2]. unfold sinv. splits; auto.
+           eapply anchor_keep; [|exact Hanc]. intros q Hq. rewrite D; auto.
+      * cbn. eapply anchor_keep; eauto.
+    + subst r. cbn. splits; auto.
+      * eapply made_dirs_stepok; eauto. rewrite Hpath, <- parent_app by auto.
+        apply is_strict_prefix_prefix. apply parent_is_strict_prefix. rewrite <- Hpath. exact Hp.
+      * unfold sinv. cbn. splits; auto.
+        -- eapply anchor_keep; eauto.
+        -- eapply made_dirs_keeps_dirs; eauto.
+    + subst r. cbn. splits; auto.
+      eapply made_dirs_stepok; eauto. rewrite Hpath, <- parent_app by auto.
+      apply is_strict_prefix_prefix. apply parent_is_strict_prefix. rewrite <- Hpath. exact Hp.
+Qed.
+
+(** ** The whole diff *)
+
+(** What the disk may look like after processing the entries [d] from the disk [f0]. *)
+Definition rel (d : list dentry) (f0 f : fs) : Prop :=
+  forall q, lookup f q = lookup f0 q
+    \/ (lookup f0 q = None /\ exists e, In e d /\ is_prefix q (d_path e) = true)
+    \/ (is_leaf (lookup f0 q) = true /\ exists e, In e d /\ q = d_path e /\ tracked e = true)
+    \/ (lookup f0 q = Some EDir
+        /\ exists e, In e d /\ is_strict_prefix q (d_path e) = true /\ removal e = true).
+
+Lemma rel_of_stepok : forall e rest f f1,
+  stepok (d_path e) (tracked e) (removal e) f f1 -> rel (e :: rest) f f1.
+Proof.
+  intros e rest f f1 H q. destruct (H q) as [A|[[A B]|[[A [B C]]|[A [B C]]]]].
+  - now left.
+  - right; left. split; auto. exists e. split; [now left | auto].
+  - right; right; left. split; auto. exists e. split; [now left | auto].
+  - right; right; right. split; auto. exists e. split; [now left | auto].
+Qed.
+
+Lemma rel_cons : forall e rest f f1 f2,
+  stepok (d_path e) (tracked e) (removal e) f f1 -> rel rest f1 f2 -> rel (e :: rest) f f2.
+Proof.
+  intros e rest f f1 f2 H1 H2 q.
+  destruct (H1 q) as [A|Hne].
+  - (* nothing happened at q in the first step *)
+    destruct (H2 q) as [B|[[B [e' [C D]]]|[[B [e' [C D]]]|[B [e' [C D]]]]]]; rewrite A in B.
+    + now left.
+    + right; left. split; auto. exists e'. split; [now right | auto].
+    + right; right; left. split; auto. exists e'. split; [now right | auto].
+    + right; right; right. split; auto. exists e'. split; [now right | auto].
+  - destruct Hne as [[A B]|[[A [B C]]|[A [B C]]]].
+    + right; left. split; auto. exists e. split; [now left | auto].
+    + right; right; left. split; auto. exists e. split; [now left | auto].
+    + right; right; right. split; auto. exists e. split; [now left | auto].
+Qed.
+
+Lemma process_all_spec : forall d s r,
+  process_all s d = r -> (forall e, In e d -> d_path e <> []) -> sinv s ->
+  good (s_w (pr_state r)) /\ pr_not_escape r /\
+  rel d (w_fs (s_w s)) (w_fs (s_w (pr_state r))) /\
+  (forall q, has_reserved q = true -> lookup (w_fs (s_w (pr_state r))) q = lookup (w_fs (s_w s)) q).
+Proof.
+  induction d as [|e rest IH]; intros s r H Hne Hinv.
+  - cbn in H. subst r. cbn. destruct Hinv as [Hg _]. splits; auto. intros q. now left.
+  - cbn in H. destruct (process_entry s e) as [s1|er s1] eqn:E;
+      apply process_entry_spec in E; auto; try (apply Hne; now left);
+      destruct E as [A [B [C [D F]]]]; cbn [pr_state] in *.
+    + apply IH in H; auto; [|intros e' He'; apply Hne; now right].
+      destruct H as [A' [B' [C' D']]]. splits; auto.
+      * eapply rel_cons; eauto.
+      * intros q Hq. rewrite D'; auto.
+    + subst r. cbn. splits; auto. now apply rel_of_stepok.
 Qed.
 
 End WithReserved.
